@@ -1,6 +1,6 @@
 (* C02 — correspondence: evaluate ImplSem and RefSem on the programs the real interpreter ran. *)
 From Coq Require Import List String ZArith Bool Arith.
-From V.C02 Require Import Lang Model Spec Wf Slots.
+From V.C02 Require Import Lang Model Spec Wf Slots SlotModel.
 Import ListNotations.
 Open Scope string_scope.
 
@@ -21,7 +21,8 @@ Definition obs_is (o : obs) (out : string) (code : nat) : bool :=
    3 = the program is not wf (generator error)
    4 = Coq's [clean] disagrees with the generator's intention
    5 = the model ran out of fuel (generator produced a too long run)
-   6 = some function's variable table (Slots.fun_vars) does not cover its body *)
+   6 = some function's / closure's symbol table does not cover its body (Slots.cov_prog)
+   7 = SlotSem (frames as index-accessed vectors) and the implementation disagree *)
 Definition check_case (c : case) : list nat :=
   let '(p, out, code, cl) := c in
   let mi := run_impl no_catch FUEL p in
@@ -31,9 +32,8 @@ Definition check_case (c : case) : list nat :=
   (if wf p then [] else [3%nat]) ++
   (if Bool.eqb (clean p) cl then [] else [4%nat]) ++
   (match snd mi with EndFuel => [5%nat] | _ => [] end) ++
-  (if forallb (fun d => covers (fun_vars d) (fbody d)) (funcs p) && covers (vars_stmt (main p) []) (main p) &&
-      forallb (fun c => covers (clo_vars c) (cbody c)) (closures p)
-   then [] else [6%nat]).
+  (if cov_prog p then [] else [6%nat]) ++
+  (if obs_is (run_slots no_catch FUEL p) out code then [] else [7%nat]).
 
 (* for replays: both observations side by side *)
 Definition show_case (p : prog) := (run_impl no_catch FUEL p, run_ref no_catch FUEL p, wf p, clean p).
